@@ -271,13 +271,14 @@ def Tree.pop (s : Tree) : Tree := { s with stack := s.stack.tail }
 /-- "insert an HTML element for the token. Immediately pop the current node off the stack" -/
 def Tree.insertAndPop (s : Tree) (n : Name) (a : Attrs := {}) : Tree := (s.insertHtml n a).pop
 
-def Tree.onStack (s : Tree) (id : Nat) : Bool := s.stack.any (·.id == id)
+/-- is this element (this node: identities are fresh, so the record identifies the node) on the stack -/
+def Tree.onStack (s : Tree) (x : El) : Bool := s.stack.any (· == x)
 
 def Tree.hasOnStack (s : Tree) (n : Name) : Bool := s.stack.any (·.isHtml n)
 
-/-- remove an element (by identity) from the stack -/
-def Tree.removeFromStack (s : Tree) (id : Nat) : Tree :=
-  { s with stack := s.stack.filter (·.id != id) }
+/-- remove an element (this node) from the stack -/
+def Tree.removeFromStack (s : Tree) (x : El) : Tree :=
+  { s with stack := s.stack.filter (· != x) }
 
 /-- "pop all the nodes from the bottom of the stack of open elements, from the current node up to, but
 not including, the root html element" (§13.2.6.4.7, `frameset`) -/
@@ -342,8 +343,8 @@ def Tree.inScope (c : Cfg) (s : Tree) (n : Name) : Bool :=
   hasInScopeBy (·.isHtml n) (·.isDefaultScopeBoundary c) s.stack
 def Tree.inScopeIn (c : Cfg) (s : Tree) (l : List Name) : Bool :=
   hasInScopeBy (·.isHtmlIn l) (·.isDefaultScopeBoundary c) s.stack
-def Tree.inScopeId (c : Cfg) (s : Tree) (id : Nat) : Bool :=
-  hasInScopeBy (·.id == id) (·.isDefaultScopeBoundary c) s.stack
+def Tree.inScopeId (c : Cfg) (s : Tree) (x : El) : Bool :=
+  hasInScopeBy (· == x) (·.isDefaultScopeBoundary c) s.stack
 def Tree.inListItemScope (c : Cfg) (s : Tree) (n : Name) : Bool :=
   hasInScopeBy (·.isHtml n) (·.isListItemScopeBoundary c) s.stack
 def Tree.inButtonScope (c : Cfg) (s : Tree) (n : Name) : Bool :=
